@@ -233,6 +233,18 @@ CLAIMED['C17'] = dict(
     note='The stand-alone decoders are the oracle for region content (their output is C14 / C15).',
     technique='TLC model checking of DrawerDump.tla + TLC-judged partition of real outputs')
 
+CLAIMED['C20'] = dict(
+    text='HwDiags.tla transcribes the signature slicing (model/EC word, 16-bit chip position, node, attention type, '
+         'signature id, instance, bit), the case-folded keyed look-ups with every fallback, and the register-dump framing '
+         'and line layout; TLC checks field independence of the signature per hex character (with and without chip data) '
+         'and case-blindness.  The real ParserData, the oe500 SRC parser and the oe500 user-data parsers are run directly '
+         'and end-to-end through parsePEL, with chip data absent / partial / full (synthetic data files selected through '
+         'pel.hwdiags.data.__file__), upper- and lower-case words and swept bytes; TLC recomputes every string '
+         '(ChipDesc, Signature, AttnType, RegisterDump, ScratchRegisters, ScratchSignature, CalloutFFDC, NeverError).',
+    design='DESIGN.md 4.11, 5 C20',
+    note='Executable-reference use of the spec.  Partial chip data means missing keys, not malformed values.',
+    technique='TLA+ transcription (HwDiags.tla) with model-checked field independence + TLC-judged output of the real parsers')
+
 REASON_NOT_YET = 'check not built yet in this session (planned per DESIGN.md 5); not claimed until its TLC-judged check runs green on the unchanged tree'
 
 
